@@ -15,6 +15,6 @@ PROPS['C14'] = dict(
         dict(name='replay', variant='plain', harness='c14_isolation.cpp', quick=800, thorough=16000),
         dict(name='interfere', variant='plain', harness='c14_isolation.cpp', quick=400, thorough=8000),
         dict(name='threads', variant='plain', harness='c14_isolation.cpp', quick=120, thorough=2500, jobs=4, budget=120),
-        dict(name='tsan', variant='tsan', harness='c14_isolation.cpp', quick=40, thorough=600, jobs=4, budget=600),
+        dict(name='tsan', variant='tsan', harness='c14_isolation.cpp', quick=24, thorough=600, jobs=4, budget=600),
     ],
 )
